@@ -478,7 +478,11 @@ def merge_projections(arr):
         return arr
     if len(arr) == 1 or not has_none(arr[0]):
         return arr[0]
-    sparse_fa = np.copy(arr[0])
+    # an object array built element by element: the projected arguments may
+    # themselves be arrays, which np.copy of the list would try to broadcast
+    sparse_fa = np.empty(len(arr[0]), dtype=object)
+    for n, a in enumerate(arr[0]):
+        sparse_fa[n] = a
     # Each further argument list supplies, position by position, the holes that
     # are still open: its n-th entry goes to the n-th open hole, and an entry
     # that is itself omitted (None) leaves that hole open for a later list.
